@@ -143,6 +143,11 @@ def _run(ctx, case, rec):
                 rec.count("evaluations")
                 if origin != "create":
                     rec.count("after_variation")
+                if isinstance(pn, workload.StackMappingSpun):
+                    # the harness's own wall-clock guard around the stack mapper (or its 'this family spins' switch) cut the
+                    # mapping short: nothing was observed, nothing is judged (a loaded machine must not produce a verdict)
+                    rec.count("remappings_not_judged:spin_guard")
+                    continue
                 if isinstance(pn, BaseException):
                     rec.violation(f"remapping-raises:{kind}:{type(pn).__name__}", dict(wit, error=core.short(pn)))
                     continue
